@@ -82,7 +82,7 @@ static OpusDecoder *dec1, *dec2;
 static int Fs, CH, APP, API, Fs2, CH2;
 static int q_units = 8, mx = 1500;
 /* settings without a getter, tracked from successful ctl calls */
-static int s_ubw = OPUS_AUTO, s_sig = OPUS_AUTO;
+static int s_ubw = OPUS_AUTO, s_sig = OPUS_AUTO, s_ubr = OPUS_AUTO;
 
 static void peek_all(int *p) { int i; for (i = 0; i < NPEEK; i++) p[i] = opus_verif_encoder_peek(enc, i); }
 
@@ -94,7 +94,7 @@ static void do_ctl(const char *name, int v)
    else if (!strcmp(name, "bw")) { r = opus_encoder_ctl(enc, OPUS_SET_BANDWIDTH(v)); if (r == OPUS_OK) s_ubw = v; }
    else if (!strcmp(name, "mb")) r = opus_encoder_ctl(enc, OPUS_SET_MAX_BANDWIDTH(v));
    else if (!strcmp(name, "sg")) { r = opus_encoder_ctl(enc, OPUS_SET_SIGNAL(v)); if (r == OPUS_OK) s_sig = v; }
-   else if (!strcmp(name, "br")) r = opus_encoder_ctl(enc, OPUS_SET_BITRATE(v));
+   else if (!strcmp(name, "br")) { r = opus_encoder_ctl(enc, OPUS_SET_BITRATE(v)); if (r == OPUS_OK) s_ubr = v; }
    else if (!strcmp(name, "vb")) r = opus_encoder_ctl(enc, OPUS_SET_VBR(v));
    else if (!strcmp(name, "cv")) r = opus_encoder_ctl(enc, OPUS_SET_VBR_CONSTRAINT(v));
    else if (!strcmp(name, "cx")) r = opus_encoder_ctl(enc, OPUS_SET_COMPLEXITY(v));
@@ -119,16 +119,14 @@ static void do_encode(int kind)
    gen_sig(kind, pcm, fs, CH, Fs);
    pkt = (unsigned char *)malloc(mx > 0 ? mx : 1);
    peek_all(pre);
-   hx_arm(20);
    if (API == 1) {
       for (i = 0; i < fs * CH; i++) { double v = pcm[i] * 32768.0; pcm16[i] = (opus_int16)(v > 32767 ? 32767 : v < -32768 ? -32768 : lrint(v)); }
       r = opus_encode(enc, pcm16, fs, pkt, mx);
    } else r = opus_encode_float(enc, pcm, fs, pkt, mx);
-   hx_disarm();
    peek_all(post);
    opus_encoder_ctl(enc, OPUS_GET_FINAL_RANGE(&rngE));
    js_open("enc"); js_int("q", q_units); js_int("mx", mx); printf(",\"sk\":\"%c\"", kind);
-   js_int("fm", post[21]); js_int("fc", post[11]); js_int("ubw", s_ubw); js_int("mxb", getter(OPUS_GET_MAX_BANDWIDTH_REQUEST));
+   js_int("fm", post[21]); js_int("fc", post[11]); js_int("ubw", s_ubw); js_int("ubr", s_ubr); js_int("mxb", getter(OPUS_GET_MAX_BANDWIDTH_REQUEST));
    js_int("vbr", getter(OPUS_GET_VBR_REQUEST)); js_int("cx", getter(OPUS_GET_COMPLEXITY_REQUEST));
    js_int("dtx", getter(OPUS_GET_DTX_REQUEST)); js_int("fec", getter(OPUS_GET_INBAND_FEC_REQUEST));
    js_int("loss", getter(OPUS_GET_PACKET_LOSS_PERC_REQUEST)); js_int("lfe", post[22]); js_int("sig", s_sig);
@@ -145,10 +143,8 @@ static void do_encode(int kind)
       for (i = 0; i < nf && i < 48; i++) sz[i] = size[i];
       js_arr_i("sz", sz, nf > 0 ? nf : 0);
       /* decoder 1: the packet as a whole */
-      hx_arm(20);
-      n1 = opus_decode_float(dec1, pkt, r, out1, MAXSAMP, 0);
-      hx_disarm();
-      opus_decoder_ctl(dec1, OPUS_GET_FINAL_RANGE(&rng1));
+         n1 = opus_decode_float(dec1, pkt, r, out1, MAXSAMP, 0);
+         opus_decoder_ctl(dec1, OPUS_GET_FINAL_RANGE(&rng1));
       for (i = 0; i < 4; i++) d1p[i] = opus_verif_decoder_peek(dec1, 11 + i);
       for (i = 0; i < 3; i++) d1p[4 + i] = opus_verif_decoder_peek(dec1, i);
       js_int("d1n", n1); js_rng("d1r", rng1); js_arr_i("d1p", d1p, 7);
@@ -159,10 +155,8 @@ static void do_encode(int kind)
             int n, j;
             one[0] = (unsigned char)(toc & 0xFC);
             if (size[i] > 0) memcpy(one + 1, frames[i], (size_t)size[i]);
-            hx_arm(20);
-            n = opus_decode_float(dec2, one, 1 + size[i], out2, spf2, 0);
-            hx_disarm();
-            if (n < 0) bad = n; else n2 += n;
+                     n = opus_decode_float(dec2, one, 1 + size[i], out2, spf2, 0);
+                     if (n < 0) bad = n; else n2 += n;
             for (j = 0; j < 4; j++) d2[6 * i + j] = opus_verif_decoder_peek(dec2, 11 + j);
             d2[6 * i + 4] = opus_verif_decoder_peek(dec2, 1);
             d2[6 * i + 5] = opus_verif_decoder_peek(dec2, 2);
@@ -189,7 +183,7 @@ static void run_line(char *line, int lineno)
    Fs2 = (Fs == 48000) ? 16000 : 48000; CH2 = 3 - CH;
    dec1 = opus_decoder_create(Fs, CH, &err);
    dec2 = opus_decoder_create(Fs2, CH2, &err);
-   q_units = 8; mx = 1500; s_ubw = OPUS_AUTO; s_sig = OPUS_AUTO;
+   q_units = 8; mx = 1500; s_ubw = OPUS_AUTO; s_sig = OPUS_AUTO; s_ubr = OPUS_AUTO;
    sig_init(seed);
    peek_all(st);
    js_open("new"); js_int("x", lineno); js_int("Fs", Fs); js_int("ch", CH); js_int("app", APP); js_int("api", API);
@@ -219,7 +213,6 @@ static void run_line(char *line, int lineno)
 int main(void)
 {
    static char line[1 << 16]; int lineno = 0;
-   hx_watchdog_init();
    while (fgets(line, sizeof line, stdin)) { lineno++; if (line[0] == 'X') run_line(line, lineno); }
    return 0;
 }
